@@ -6,12 +6,13 @@ requests
   cfg <i> <a> <f>                 mechanism facts (0/1)
   new <dt-hex> <kinds>            kinds: comma list over `s` (stock) `f` (flow) `o` (other), element i = i-th entry
   seteq <n> <expr> | setinit <n> <expr> | addeq <n> <expr> | reset
+  setpoints <p> <xhex>:<yhex>,…   `model.points["p<p>"] = [[x,y],…]` (no cache reset — a plain dictionary write)
   eval <n> <k>                    -> value hex | none
   memo                            -> sorted `n.k=hex` list
   conc <reqs> <sched>             reqs: threads separated by `|`, each `n.k,n.k,…`; sched: comma list of thread
                                   ids, each entry = "run that thread up to and including its next access to the memo"
                                   -> events `;` per-thread hand-out logs `;` final memo `;` finished flag
-expr (prefix, comma separated): L<hex> | R<n> | P<n> | B<op>,e,e | M,e | S,e,e | X
+expr (prefix, comma separated): L<hex> | R<n> | P<n> | B<op>,e,e | M,e | S,e,e | X | K<p>,e  (K = model._lookup(e, "p<p>"))
 -/
 open Bptk.C08
 
@@ -36,6 +37,27 @@ def fOps : Ops Float :=
     -- Python `max(0, x)`: returns x only if x > 0, else the int 0 (shipped as 0.0)
     max0 := fun x => if x > 0.0 then x else 0.0 }
 
+/-- `Model._lookup(x, points)`: clamp outside the table, else scipy's `interp1d` (linear):
+`i = searchsorted(xs, x)` (first index with `xs[i] >= x`) clipped to `1 … n-1`, `slope = (y_hi-y_lo)/(x_hi-x_lo)`,
+`y = slope*(x-x_lo) + y_lo`. -/
+def interpF (tbl : List (Float × Float)) (x : Float) : Float :=
+  match tbl, tbl.getLast? with
+  | (x0, y0) :: _, some (xn, yn) =>
+      if x ≤ x0 then y0 else if x ≥ xn then yn else
+      let arr := tbl.toArray
+      let i := (arr.findIdx? (fun p => p.1 ≥ x)).getD (arr.size - 1)
+      let i := if i < 1 then 1 else if i > arr.size - 1 then arr.size - 1 else i
+      let lo := arr[i - 1]!
+      let hi := arr[i]!
+      let slope := (hi.2 - lo.2) / (hi.1 - lo.1)
+      slope * (x - lo.1) + lo.2
+  | _, _ => x
+
+def parsePoints (s : String) : Option (List (Float × Float)) :=
+  (s.splitOn ",").mapM (fun t => match t.splitOn ":" with
+    | [a, b] => do some ((← parseHex a), (← parseHex b))
+    | _ => none)
+
 /-- prefix parser; fuel = number of tokens. -/
 def parseE : Nat → List String → Option (Expr Float × List String)
   | 0, _ => none
@@ -47,6 +69,10 @@ def parseE : Nat → List String → Option (Expr Float × List String)
       else if hd == "R" then tl.toNat?.map (fun n => (.ref n, ts))
       else if hd == "P" then tl.toNat?.map (fun n => (.prev n, ts))
       else if hd == "X" && tl == "" then some (.rnd, ts)
+      else if hd == "K" then
+        match tl.toNat?, parseE f ts with
+        | some p, some (a, r) => some (.lookup p a, r)
+        | _, _ => none
       else if hd == "M" && tl == "" then
         match parseE f ts with
         | some (a, r) => some (.max0 a, r)
@@ -188,6 +214,10 @@ def stepLine (d : DS) (line : String) : DS × String :=
       | some n, some e => ({ d with s := step d.c fOps d.s (.addEq n e) }, "ok")
       | _, _ => (d, "bad-op")
   | ["reset"] => ({ d with s := step d.c fOps d.s .reset }, "ok")
+  | ["setpoints", p, tbl] => match p.toNat?, parsePoints tbl with
+      | some p, some tbl =>
+          if tbl.isEmpty then (d, "bad-op") else ({ d with s := step d.c fOps d.s (.setPoints p (interpF tbl)) }, "ok")
+      | _, _ => (d, "bad-op")
   | ["eval", n, k] => match n.toNat?, k.toNat? with
       | some n, some k =>
           let r := query fOps d.s n k 100000
@@ -197,7 +227,7 @@ def stepLine (d : DS) (line : String) : DS × String :=
   | ["memo"] => (d, memoCanon d.s.memo)
   | ["conc", reqs, sched] => match parseReqs reqs, parseNats sched with
       | some reqs, some sched =>
-          let sys := sysOf fOps 0.0 d.s.body oracleF
+          let sys := sysOf (fOps.withLk d.s.lk) 0.0 d.s.body oracleF
           let s0 := initC d.s.memo reqs
           let (s1, ev1) := runCoarse d.c sys s0 sched
           let (s2, ev2) := finishAll d.c sys reqs.length s1
